@@ -211,7 +211,7 @@ def attach_shadow(io_manager, run, L):
     def on_event(kind, arg0, arg1, cmd=None):
         if kind == 'clse_dropped':
             s = dev.by_local.get(arg1)
-            if s is not None and s.session == dev.sessions and not s.host_clse_count and (arg0 in (s.remote, 0)):
+            if s is not None and s.session == dev.sessions and (arg0 in (s.remote, 0)):
                 sh.k1_drops.append({'local': arg1, 'remote': arg0, 'reader': actor(), 't': run.clock.now, 'sid': s.sid})
                 sh._probe('clse_dropped_for_live_stream')
         elif kind == 'parked':
